@@ -31,7 +31,8 @@ READONLY = [b'arch', b'build-user', b'builddir', b'comment-path', b'exec-dir', b
 READONLY_MODE = {'robsd': [b'bsd-reldir', b'x11-reldir'], 'robsd-cross': [b'target'], 'robsd-ports': [],
                  'robsd-regress': [b'regress-obj', b'regress-packages'], 'canvas': [b'robsddir']}
 ROOTS = [b'root', b'root', b'rroot', b'eroot', b'nroot']
-PATHS = [b'bin/csh', b'bin/ksh', b'sys/nfs', b'usr.sbin/bgpd', b'a', b'x-env', b'lib/libc', b'a-targets']
+PATHS = [b'bin/csh', b'bin/ksh', b'sys/nfs', b'usr.sbin/bgpd', b'a', b'x-env', b'lib/libc', b'a-targets',
+         b'lib/libcrypto', b'sys/net', b'sys/netinet', b'bin/k']          # several names are prefixes of others
 GOODSTR = [b'plain', b'with space', b'x=1', b'UPPER', b'tab\there', b'#nocomment', b'${arch}', b'a${ncpu}b', b'${keep}', b'${hook}',
            b'${robsddir}/x', b'{brace}', b'semi;colon', b"quo'te", b'\xc3\xa9', b'${machine}-${arch}', b'0', b'yes']
 ODDSTR = [b'${nope}', b'$x', b'${', b'${}', b'multi\nline', b'${robsddir', b'a$', b'${kernel}', b'${sudo}']
@@ -116,7 +117,7 @@ class Gen:
 
     def step_entry(self, st):
         r = self.rng
-        name = r.choice([b'first', b'build', b'lint', b'a', b'end', b'two words', b'x/y']) if r.random() < 0.8 else r.choice(st['steps'] or [b'first'])
+        name = r.choice([b'first', b'build', b'lint', b'a', b'end', b'two words', b'x/y', b'build-all', b'li', b'en']) if r.random() < 0.8 else r.choice(st['steps'] or [b'first'])
         st['steps'].append(name)
         cmd = self.listtoks([r.choice([b'true', b'sh', b'-c', b'echo hi', b'${canvas-name}', b'${trace}', b'-x']) for _ in range(r.randint(1, 4))])
         parts = [[b'command'] + cmd]
